@@ -252,4 +252,435 @@ theorem no_binding_of_no_hit (h : Key → Nat) (d : Dict) (hinv : DInv h d) (k :
   have : (d.cell (h k &&& d.tableSize)).any (hit (h k) k) = true := List.any_eq_true.mpr ⟨e, he, hh⟩
   rw [hno] at this; cases this
 
+/-! ### the counters `count` (`xbt_dict_length`) and `fill` -/
+
+/-- number of indices `i < n` with `p i` -/
+def cnt (p : Nat → Bool) (n : Nat) : Nat := ((List.range n).filter p).length
+
+/-- number of elements stored in the cells `0 … n-1` -/
+def cellTotal (c : Nat → List Elm) (n : Nat) : Nat := ((List.range n).flatMap c).length
+
+theorem cnt_zero (p : Nat → Bool) : cnt p 0 = 0 := rfl
+
+theorem cnt_succ (p : Nat → Bool) (n : Nat) : cnt p (n + 1) = cnt p n + (if p n then 1 else 0) := by
+  unfold cnt
+  rw [List.range_succ, List.filter_append, List.length_append]
+  cases hp : p n <;> simp [List.filter, hp]
+
+theorem cellTotal_zero (c : Nat → List Elm) : cellTotal c 0 = 0 := rfl
+
+theorem cellTotal_succ (c : Nat → List Elm) (n : Nat) : cellTotal c (n + 1) = cellTotal c n + (c n).length := by
+  unfold cellTotal
+  rw [List.range_succ, List.flatMap_append, List.length_append]
+  simp
+
+theorem cnt_congr (p q : Nat → Bool) (n : Nat) (hpq : ∀ j, j < n → p j = q j) : cnt p n = cnt q n := by
+  induction n with
+  | zero => rfl
+  | succ n ih =>
+    rw [cnt_succ, cnt_succ, ih (fun j hj => hpq j (by omega)), hpq n (by omega)]
+
+theorem cellTotal_congr (c c' : Nat → List Elm) (n : Nat) (hcc : ∀ j, j < n → c j = c' j) :
+    cellTotal c n = cellTotal c' n := by
+  induction n with
+  | zero => rfl
+  | succ n ih =>
+    rw [cellTotal_succ, cellTotal_succ, ih (fun j hj => hcc j (by omega)), hcc n (by omega)]
+
+theorem cnt_le (p : Nat → Bool) (n : Nat) : cnt p n ≤ n := by
+  induction n with
+  | zero => exact Nat.le_refl _
+  | succ n ih => rw [cnt_succ]; split <;> omega
+
+/-- splitting the index range `0 … n+m-1` at `n` -/
+theorem cnt_add (p : Nat → Bool) (n m : Nat) : cnt p (n + m) = cnt p n + cnt (fun j => p (n + j)) m := by
+  induction m with
+  | zero => rfl
+  | succ m ih => rw [← Nat.add_assoc, cnt_succ, cnt_succ, ih]; omega
+
+theorem cellTotal_add (c : Nat → List Elm) (n m : Nat) :
+    cellTotal c (n + m) = cellTotal c n + cellTotal (fun j => c (n + j)) m := by
+  induction m with
+  | zero => rfl
+  | succ m ih => rw [← Nat.add_assoc, cellTotal_succ, cellTotal_succ, ih]; omega
+
+/-- pointwise partition of a predicate -/
+theorem cnt_partition (p q r : Nat → Bool) (n : Nat)
+    (hp : ∀ j, j < n → (if p j then 1 else 0) + (if q j then 1 else 0) = (if r j then 1 else 0)) :
+    cnt p n + cnt q n = cnt r n := by
+  induction n with
+  | zero => rfl
+  | succ n ih =>
+    have := ih (fun j hj => hp j (by omega))
+    have := hp n (by omega)
+    rw [cnt_succ, cnt_succ, cnt_succ]; omega
+
+theorem cellTotal_partition (a b c : Nat → List Elm) (n : Nat)
+    (hp : ∀ j, j < n → (a j).length + (b j).length = (c j).length) :
+    cellTotal a n + cellTotal b n = cellTotal c n := by
+  induction n with
+  | zero => rfl
+  | succ n ih =>
+    have := ih (fun j hj => hp j (by omega))
+    have := hp n (by omega)
+    rw [cellTotal_succ, cellTotal_succ, cellTotal_succ]; omega
+
+/-- a positive count has a witness -/
+theorem cnt_pos_of (p : Nat → Bool) (n i : Nat) (hi : i < n) (hpi : p i = true) : 0 < cnt p n := by
+  induction n with
+  | zero => omega
+  | succ n ih =>
+    rw [cnt_succ]
+    by_cases hin : i = n
+    · subst hin; simp [hpi]
+    · have := ih (by omega); omega
+
+theorem cellTotal_ge (c : Nat → List Elm) (n i : Nat) (hi : i < n) : (c i).length ≤ cellTotal c n := by
+  induction n with
+  | zero => omega
+  | succ n ih =>
+    rw [cellTotal_succ]
+    by_cases hin : i = n
+    · subst hin; omega
+    · have := ih (by omega); omega
+
+/-- writing one cell: the total changes by the difference of the chain lengths -/
+theorem cellTotal_setCell (c : Nat → List Elm) (i : Nat) (l : List Elm) (n : Nat) (hi : i < n) :
+    cellTotal (setCell c i l) n + (c i).length = cellTotal c n + l.length := by
+  induction n with
+  | zero => omega
+  | succ n ih =>
+    rw [cellTotal_succ, cellTotal_succ]
+    by_cases hin : i = n
+    · subst hin
+      have h1 : cellTotal (setCell c i l) i = cellTotal c i :=
+        cellTotal_congr _ _ _ (fun j hj => by simp [setCell]; intro h; omega)
+      have h2 : setCell c i l i = l := by simp [setCell]
+      rw [h1, h2]; omega
+    · have h2 : setCell c i l n = c n := by
+        simp only [setCell]; rw [if_neg (fun h => hin h.symm)]
+      have := ih (by omega)
+      rw [h2]; omega
+
+/-- writing one cell: the number of non-empty cells changes by the difference of the emptiness bits -/
+theorem cnt_setCell (c : Nat → List Elm) (i : Nat) (l : List Elm) (n : Nat) (hi : i < n) :
+    cnt (fun j => !(setCell c i l j).isEmpty) n + (if (c i).isEmpty then 0 else 1) =
+      cnt (fun j => !(c j).isEmpty) n + (if l.isEmpty then 0 else 1) := by
+  induction n with
+  | zero => omega
+  | succ n ih =>
+    rw [cnt_succ, cnt_succ]
+    by_cases hin : i = n
+    · subst hin
+      have h1 : cnt (fun j => !(setCell c i l j).isEmpty) i = cnt (fun j => !(c j).isEmpty) i :=
+        cnt_congr _ _ _ (fun j hj => by
+          have : setCell c i l j = c j := by simp only [setCell]; rw [if_neg (by omega)]
+          simp only [this])
+      have h2 : setCell c i l i = l := by simp [setCell]
+      rw [h1, h2]
+      cases (c i).isEmpty <;> cases l.isEmpty <;> simp <;> omega
+    · have h2 : setCell c i l n = c n := by
+        simp only [setCell]; rw [if_neg (fun h => hin h.symm)]
+      have := ih (by omega)
+      rw [h2]; omega
+
+/-- the number of non-empty cells of the table -/
+def nonEmptyCells (d : Dict) : Nat :=
+  ((List.range (d.tableSize + 1)).filter (fun i => !(d.cell i).isEmpty)).length
+
+/-- counter invariant: `count` is the number of stored elements, `fill` the number of non-empty cells -/
+def CInv (d : Dict) : Prop := d.count = (entries d).length ∧ d.fill = nonEmptyCells d
+
+instance (d : Dict) : Decidable (CInv d) := inferInstanceAs (Decidable (_ ∧ _))
+
+theorem entries_length (d : Dict) : (entries d).length = cellTotal d.cell (d.tableSize + 1) := rfl
+
+theorem nonEmptyCells_eq (d : Dict) : nonEmptyCells d = cnt (fun i => !(d.cell i).isEmpty) (d.tableSize + 1) := rfl
+
+theorem cinv_iff (d : Dict) : CInv d ↔
+    d.count = cellTotal d.cell (d.tableSize + 1) ∧ d.fill = cnt (fun i => !(d.cell i).isEmpty) (d.tableSize + 1) :=
+  Iff.rfl
+
+theorem replFirst_length (hc : Nat) (k : Key) (v : Int) (l : List Elm) : (replFirst hc k v l).length = l.length := by
+  induction l with
+  | nil => rfl
+  | cons e t ih => simp only [replFirst]; split <;> simp [ih]
+
+theorem unlinkFirst_length (hc : Nat) (k : Key) (l : List Elm) (hany : l.any (hit hc k) = true) :
+    (unlinkFirst hc k l).length + 1 = l.length := by
+  induction l with
+  | nil => simp at hany
+  | cons e t ih =>
+    simp only [unlinkFirst]
+    by_cases hh : hit hc k e = true
+    · simp [hh]
+    · have : t.any (hit hc k) = true := by simpa [hh] using hany
+      simp [hh, ih this]
+
+/-- the two halves of the doubled table -/
+def stayC (d : Dict) (i : Nat) : List Elm :=
+  (d.cell i).filter (fun e => e.hash &&& ((d.tableSize + 1) * 2 - 1) == i)
+def movedC (d : Dict) (i : Nat) : List Elm :=
+  ((d.cell i).filter (fun e => !(e.hash &&& ((d.tableSize + 1) * 2 - 1) == i))).reverse
+
+theorem rehash_cell (d : Dict) (j : Nat) : (rehash d).cell j =
+    if j < d.tableSize + 1 then stayC d j else if j < 2 * (d.tableSize + 1) then movedC d (j - (d.tableSize + 1))
+    else [] := rfl
+
+theorem rehash_fill (d : Dict) : (rehash d).fill =
+    d.fill + cnt (fun i => !(movedC d i).isEmpty) (d.tableSize + 1)
+      - cnt (fun i => !(d.cell i).isEmpty && (stayC d i).isEmpty) (d.tableSize + 1) := rfl
+
+theorem rehash_count (d : Dict) : (rehash d).count = d.count := rfl
+
+theorem rehash_tableSize (d : Dict) : (rehash d).tableSize + 1 = (d.tableSize + 1) + (d.tableSize + 1) := by
+  simp only [rehash]; omega
+
+theorem stay_moved_length (d : Dict) (i : Nat) : (stayC d i).length + (movedC d i).length = (d.cell i).length := by
+  unfold stayC movedC
+  rw [List.length_reverse]
+  generalize d.cell i = l
+  induction l with
+  | nil => rfl
+  | cons e t ih =>
+    simp only [List.filter_cons]
+    split <;> simp_all <;> omega
+
+/-- **rehash** keeps the counter invariant: `count` unchanged = number of elements of the doubled table;
+`fill + fillUp - fillDown` (truncated subtraction) = number of non-empty cells of the doubled table -/
+theorem rehash_cinv (d : Dict) (hc : CInv d) : CInv (rehash d) := by
+  rw [cinv_iff] at hc ⊢
+  obtain ⟨h1, h2⟩ := hc
+  have hlo : ∀ j, j < d.tableSize + 1 → (rehash d).cell j = stayC d j := by
+    intro j hj; rw [rehash_cell, if_pos hj]
+  have hhi : ∀ j, j < d.tableSize + 1 → (rehash d).cell (d.tableSize + 1 + j) = movedC d j := by
+    intro j hj
+    rw [rehash_cell, if_neg (by omega), if_pos (by omega)]
+    congr 1; omega
+  refine ⟨?_, ?_⟩
+  · rw [rehash_count, rehash_tableSize, cellTotal_add, h1,
+      cellTotal_congr _ _ _ hlo, cellTotal_congr _ _ _ hhi]
+    exact (cellTotal_partition _ _ _ _ (fun j _ => stay_moved_length d j)).symm
+  · have e1 : cnt (fun i => !((rehash d).cell i).isEmpty) ((d.tableSize + 1) + (d.tableSize + 1)) =
+        cnt (fun i => !(stayC d i).isEmpty) (d.tableSize + 1) + cnt (fun i => !(movedC d i).isEmpty) (d.tableSize + 1) := by
+      rw [cnt_add,
+        cnt_congr (fun i => !((rehash d).cell i).isEmpty) (fun i => !(stayC d i).isEmpty) _
+          (fun j hj => by simp only [hlo j hj]),
+        cnt_congr (fun j => !((rehash d).cell (d.tableSize + 1 + j)).isEmpty) (fun i => !(movedC d i).isEmpty) _
+          (fun j hj => by simp only [hhi j hj])]
+    rw [rehash_fill, rehash_tableSize, e1, h2]
+    have hpart := cnt_partition (fun i => !(stayC d i).isEmpty)
+      (fun i => !(d.cell i).isEmpty && (stayC d i).isEmpty) (fun i => !(d.cell i).isEmpty) (d.tableSize + 1)
+      (fun j _ => by
+        have hs : (d.cell j).isEmpty = true → (stayC d j).isEmpty = true := by
+          intro he; unfold stayC; rw [List.isEmpty_iff] at he; rw [he]; rfl
+        cases h3 : (d.cell j).isEmpty <;> cases h4 : (stayC d j).isEmpty <;> simp_all)
+    omega
+
+theorem isEmpty_eq_of_length_eq {α : Type} (l l' : List α) (hl : l.length = l'.length) : l.isEmpty = l'.isEmpty := by
+  cases l <;> cases l' <;> simp_all
+
+theorem isEmpty_false_of_length_pos {α : Type} (l : List α) (hl : 0 < l.length) : l.isEmpty = false := by
+  cases l with
+  | nil => simp at hl
+  | cons _ _ => rfl
+
+theorem and_mask_lt (x ts : Nat) : x &&& ts < ts + 1 := Nat.lt_succ_of_le Nat.and_le_right
+
+/-- **set** keeps the counter invariant (every hash function, every state; the rehash test runs on the already
+updated dict) -/
+theorem dset_cinv (h : Key → Nat) (d : Dict) (hc : CInv d) (k : Key) (v : Int) : CInv (dset h d k v) := by
+  rw [cinv_iff] at hc
+  obtain ⟨h1, h2⟩ := hc
+  have hi := and_mask_lt (h k) d.tableSize
+  unfold dset
+  simp only
+  split
+  · -- replace: same chain length, same emptiness
+    rw [cinv_iff]
+    have t := cellTotal_setCell d.cell (h k &&& d.tableSize)
+      (replFirst (h k) k v (d.cell (h k &&& d.tableSize))) _ hi
+    have f := cnt_setCell d.cell (h k &&& d.tableSize)
+      (replFirst (h k) k v (d.cell (h k &&& d.tableSize))) _ hi
+    rw [replFirst_length] at t
+    have he : (replFirst (h k) k v (d.cell (h k &&& d.tableSize))).isEmpty = (d.cell (h k &&& d.tableSize)).isEmpty :=
+      isEmpty_eq_of_length_eq _ _ (replFirst_length _ _ _ _)
+    rw [he] at f
+    refine ⟨?_, ?_⟩
+    · dsimp only
+      omega
+    · dsimp only
+      omega
+  · split
+    · -- new cell: count + 1, fill + 1, then the rehash test on the updated dict
+      rename_i hemp
+      have hd1 : CInv { d with cell := setCell d.cell (h k &&& d.tableSize) [⟨k, h k, v⟩],
+                               count := d.count + 1, fill := d.fill + 1 } := by
+        rw [cinv_iff]
+        have t := cellTotal_setCell d.cell (h k &&& d.tableSize) [⟨k, h k, v⟩] _ hi
+        have f := cnt_setCell d.cell (h k &&& d.tableSize) [⟨k, h k, v⟩] _ hi
+        rw [List.isEmpty_iff] at hemp
+        rw [hemp] at t f
+        simp only [List.length_nil, List.length_cons, List.isEmpty_nil, List.isEmpty_cons, if_true,
+          Bool.false_eq_true, if_false] at t f
+        refine ⟨?_, ?_⟩
+        · dsimp only
+          omega
+        · dsimp only
+          omega
+      split
+      · exact rehash_cinv _ hd1
+      · exact hd1
+    · -- appended at the end of a non-empty chain: count + 1, fill unchanged
+      rename_i hemp
+      rw [cinv_iff]
+      have t := cellTotal_setCell d.cell (h k &&& d.tableSize)
+        (d.cell (h k &&& d.tableSize) ++ [⟨k, h k, v⟩]) _ hi
+      have f := cnt_setCell d.cell (h k &&& d.tableSize)
+        (d.cell (h k &&& d.tableSize) ++ [⟨k, h k, v⟩]) _ hi
+      have he : (d.cell (h k &&& d.tableSize) ++ [(⟨k, h k, v⟩ : Elm)]).isEmpty = false := by simp
+      have hemp' : (d.cell (h k &&& d.tableSize)).isEmpty = false := by
+        cases hb : (d.cell (h k &&& d.tableSize)).isEmpty with
+        | true => exact absurd hb hemp
+        | false => rfl
+      rw [he, hemp'] at f
+      rw [List.length_append] at t
+      simp only [List.length_cons, List.length_nil, Bool.false_eq_true, if_false] at t f
+      refine ⟨?_, ?_⟩
+      · dsimp only
+        omega
+      · dsimp only
+        omega
+
+/-- **remove** keeps the counter invariant; the two truncated decrements are exact: the removed element exists,
+so `count ≥ 1`, and when its cell becomes empty that cell was counted in `fill`, so `fill ≥ 1` -/
+theorem dremove_cinv (h : Key → Nat) (d : Dict) (hc : CInv d) (k : Key) (d' : Dict)
+    (hr : dremove h d k = some d') :
+    CInv d' ∧ d'.count + 1 = d.count ∧
+    (d'.fill + (if (d'.cell (h k &&& d.tableSize)).isEmpty then 1 else 0) = d.fill) := by
+  rw [cinv_iff] at hc
+  obtain ⟨h1, h2⟩ := hc
+  have hi := and_mask_lt (h k) d.tableSize
+  unfold dremove at hr
+  simp only at hr
+  split at hr
+  · rename_i hany
+    simp only [Option.some.injEq] at hr
+    subst hr
+    have hl := unlinkFirst_length (h k) k _ hany
+    have t := cellTotal_setCell d.cell (h k &&& d.tableSize)
+      (unlinkFirst (h k) k (d.cell (h k &&& d.tableSize))) _ hi
+    have f := cnt_setCell d.cell (h k &&& d.tableSize)
+      (unlinkFirst (h k) k (d.cell (h k &&& d.tableSize))) _ hi
+    have hne : (d.cell (h k &&& d.tableSize)).isEmpty = false := isEmpty_false_of_length_pos _ (by omega)
+    rw [hne] at f
+    simp only [Bool.false_eq_true, if_false] at f
+    have hsame : setCell d.cell (h k &&& d.tableSize) (unlinkFirst (h k) k (d.cell (h k &&& d.tableSize)))
+        (h k &&& d.tableSize) = unlinkFirst (h k) k (d.cell (h k &&& d.tableSize)) := by simp [setCell]
+    rw [cinv_iff]
+    simp only [hsame]
+    cases hb : (unlinkFirst (h k) k (d.cell (h k &&& d.tableSize))).isEmpty
+    · rw [hb] at f
+      simp only [Bool.false_eq_true, if_false] at f ⊢
+      omega
+    · rw [hb] at f
+      simp only [if_true] at f ⊢
+      omega
+  · cases hr
+
+/-! ### `count` is the size of the abstract map -/
+
+theorem mem_entries (h : Key → Nat) (d : Dict) (hinv : DInv h d) (e : Elm) : e ∈ entries d ↔ ∃ i, e ∈ d.cell i := by
+  unfold entries dforeach
+  rw [List.mem_flatMap]
+  constructor
+  · rintro ⟨i, _, he⟩; exact ⟨i, he⟩
+  · rintro ⟨i, he⟩
+    exact ⟨i, List.mem_range.mpr (by have := (hinv.2.1 i e he).1; omega), he⟩
+
+/-- under `DInv` the stored elements have pairwise distinct keys (across all cells) -/
+theorem entries_keys_distinct (h : Key → Nat) (d : Dict) (hinv : DInv h d) : KeysDistinct (entries d) := by
+  unfold entries dforeach KeysDistinct
+  rw [List.pairwise_flatMap]
+  refine ⟨fun i _ => hinv.2.2 i, ?_⟩
+  refine List.pairwise_lt_range.imp ?_
+  intro i j hij x hx y hy hk
+  obtain ⟨hi, _⟩ := entry_cell h d hinv i x hx
+  obtain ⟨hj, _⟩ := entry_cell h d hinv j y hy
+  rw [hk] at hi
+  omega
+
+theorem entries_keys_nodup (h : Key → Nat) (d : Dict) (hinv : DInv h d) : ((entries d).map (·.key)).Nodup := by
+  rw [List.nodup_iff_pairwise_ne, List.pairwise_map]
+  exact entries_keys_distinct h d hinv
+
+theorem mem_entries_keys (h : Key → Nat) (d : Dict) (hinv : DInv h d) (k : Key) :
+    k ∈ (entries d).map (·.key) ↔ ∃ v, Bound d k v := by
+  rw [List.mem_map]
+  constructor
+  · rintro ⟨e, he, hk⟩
+    obtain ⟨i, hi⟩ := (mem_entries h d hinv e).mp he
+    exact ⟨e.val, i, e, hi, hk, rfl⟩
+  · rintro ⟨v, i, e, he, hk, _⟩
+    exact ⟨e, (mem_entries h d hinv e).mpr ⟨i, he⟩, hk⟩
+
+/-- the executable abstract map `amap` (first entry with key `k` in cursor order) is the relation `Bound` -/
+theorem amap_refines (h : Key → Nat) (d : Dict) (hinv : DInv h d) (k : Key) (v : Int) :
+    amap d k = some v ↔ Bound d k v := by
+  unfold amap
+  constructor
+  · intro hg
+    cases hf : (entries d).find? (fun e => e.key == k) with
+    | none => rw [hf] at hg; cases hg
+    | some e =>
+      rw [hf] at hg
+      simp only [Option.map_some, Option.some.injEq] at hg
+      obtain ⟨i, hi⟩ := (mem_entries h d hinv e).mp (List.mem_of_find?_eq_some hf)
+      have hk : e.key = k := by simpa using List.find?_some hf
+      exact ⟨i, e, hi, hk, hg⟩
+  · rintro ⟨i, e, he, hk, hv⟩
+    have hme : e ∈ entries d := (mem_entries h d hinv e).mpr ⟨i, he⟩
+    have hs : ((entries d).find? (fun e => e.key == k)).isSome = true :=
+      List.find?_isSome.mpr ⟨e, hme, by simp [hk]⟩
+    cases hf : (entries d).find? (fun e => e.key == k) with
+    | none => rw [hf] at hs; cases hs
+    | some e' =>
+      have hm := List.mem_of_find?_eq_some hf
+      have hk' : e'.key = k := by simpa using List.find?_some hf
+      have : e' = e := unique_of_distinct _ (entries_keys_distinct h d hinv) e' e hm hme (by rw [hk', hk])
+      subst this
+      simp [hv]
+
+/-- two duplicate-free enumerations of the same set have the same length -/
+theorem length_eq_of_nodup_of_mem_iff {α : Type} (l₁ l₂ : List α) (h₁ : l₁.Nodup) (h₂ : l₂.Nodup)
+    (hm : ∀ a, a ∈ l₁ ↔ a ∈ l₂) : l₁.length = l₂.length :=
+  Nat.le_antisymm (h₁.length_le_of_subset (fun a ha => (hm a).mp ha))
+    (h₂.length_le_of_subset (fun a ha => (hm a).mpr ha))
+
+/-- `dget` is `some` exactly when the chain walk hits -/
+theorem dget_isSome (h : Key → Nat) (d : Dict) (k : Key) :
+    (dget h d k).isSome = (d.cell (h k &&& d.tableSize)).any (hit (h k) k) := by
+  unfold dget
+  rw [Option.isSome_map]
+  generalize d.cell (h k &&& d.tableSize) = l
+  induction l with
+  | nil => rfl
+  | cons e t ih =>
+    simp only [List.find?_cons, List.any_cons]
+    cases hit (h k) k e <;> simp [ih]
+
+/-- `xbt_dict_length` after a `set`: one more exactly when the key was absent (whether or not the table is rehashed) -/
+theorem dset_count (h : Key → Nat) (d : Dict) (k : Key) (v : Int) :
+    (dset h d k v).count = if (dget h d k).isSome then d.count else d.count + 1 := by
+  rw [dget_isSome]
+  unfold dset
+  simp only
+  split
+  · rfl
+  · split
+    · split
+      · rfl
+      · rfl
+    · rfl
+
 end SgVerif.C50
